@@ -1913,7 +1913,106 @@ def param_list(ptext, overrides):
     return has_self, out
 
 
+def strip_generics(s):
+    """`Foo<'a, T, Bar<U>>` -> `Foo` (angle brackets at any depth removed; `->` kept out of the way)"""
+    out, depth = [], 0
+    s = s.replace("->", "\x00")
+    for ch in s:
+        if ch == "<":
+            depth += 1
+        elif ch == ">":
+            depth -= 1
+        elif depth == 0:
+            out.append(ch)
+    return "".join(out).replace("\x00", "->")
+
+
+def surface():
+    """every `impl` block and every trait of the crate with the functions it defines:
+    [(file, "Trait for Type" | "Type" | "trait Name", [fn names in source order])]"""
+    out = []
+    for root, _, files in sorted(os.walk(SRC)):
+        for f in sorted(files):
+            if not f.endswith(".rs") or f == "verif_shim.rs":
+                continue
+            rel = os.path.relpath(os.path.join(root, f), SRC)
+            txt = strip_comments(open(os.path.join(root, f)).read())
+            # test modules are not part of the crate's surface
+            tm = re.search(r"#\[cfg\(test\)\]", txt)
+            if tm:
+                txt = txt[:tm.start()]
+            for m in re.finditer(r"^[ \t]*(?:pub(?:\([a-z]+\))?\s+)?(?:unsafe\s+)?(impl\b|trait\s+\w+)", txt, flags=re.M):
+                # the header ends at the first `{` (a `;` first, outside `[T; N]`, means: no body)
+                ob, sq = -1, 0
+                for j in range(m.end(), len(txt)):
+                    ch = txt[j]
+                    if ch == "[":
+                        sq += 1
+                    elif ch == "]":
+                        sq -= 1
+                    elif ch == ";" and sq == 0:
+                        break
+                    elif ch == "{":
+                        ob = j
+                        break
+                if ob < 0:
+                    continue
+                hdr = txt[m.start(1):ob]
+                hdr = hdr.split(" where")[0].split("\nwhere")[0]
+                if hdr.startswith("impl"):
+                    h = strip_generics(hdr[4:])
+                    h = re.sub(r"\s+", " ", h).strip()
+                    name = h
+                else:
+                    name = "trait " + re.match(r"trait\s+(\w+)", hdr).group(1)
+                end = match_brace(txt, ob)
+                body = txt[ob + 1:end]
+                fns, depth, i = [], 0, 0
+                for mm in re.finditer(r"[{}]|\bfn\s+(\w+)", body):
+                    if mm.group(0) == "{":
+                        depth += 1
+                    elif mm.group(0) == "}":
+                        depth -= 1
+                    elif depth == 0:
+                        fns.append(mm.group(1))
+                out.append((rel, name, fns))
+            # the derives of every type
+            for m in re.finditer(r"((?:#\[[^\]]*\]\s*)*)(?:pub(?:\([a-z]+\))?\s+)?(struct|enum)\s+(\w+)", txt):
+                ders = []
+                for d in re.finditer(r"#\[derive\(([^)]*)\)\]", m.group(1)):
+                    ders += [x.strip() for x in d.group(1).split(",") if x.strip()]
+                out.append((rel, "%s %s" % (m.group(2), m.group(3)), ders))
+    return out
+
+
+def split_hdr(n):
+    for k in ("trait", "struct", "enum"):
+        if n.startswith(k + " "):
+            return (k, n[len(k) + 1:])
+    if " for " in n:
+        a, b = n.split(" for ", 1)
+        return (a, b)
+    return ("", n)
+
+
+def main_surface():
+    rows = surface()
+    S_OUT = os.path.join(os.path.dirname(OUT), "Surface.lean")
+    body = ("/- GENERATED by tools/rs2lean.py from the Rust sources on every run -- do not edit. -/\n"
+            "namespace Orx.Gen\n\n/-- every `impl` block and trait of the crate (test modules and the verification shim excluded) with the\n"
+            "functions it defines, in source order: (file, header without generics, functions) -/\n"
+            "structure Block where\n  file : String\n  /-- the implemented trait; `\"\"` for an inherent impl; `\"trait\"` / `\"struct\"` / `\"enum\"` for a definition -/\n"
+            "  tr : String\n  /-- the implementing (or defined) type / trait -/\n  ty : String\n  /-- functions defined (for a type: its derives) -/\n  fns : List String\n\n"
+            "def surface : List Block := [\n" +
+            ",\n".join('  ⟨"%s", "%s", "%s", [%s]⟩' % ((f,) + split_hdr(n) + (", ".join('"%s"' % x for x in fns),)) for (f, n, fns) in rows) +
+            "\n]\n\nend Orx.Gen\n")
+    old = open(S_OUT).read() if os.path.exists(S_OUT) else None
+    if old != body:
+        open(S_OUT, "w").write(body)
+
+
 def main():
+    main_surface()
     nsf = ns_functions()
     chunks = []
     report = []
